@@ -494,3 +494,48 @@ MUTANTS = [
       "    def _remove_shareholder(self, why, shareid, where):", "    def _drop_shareholder(self, why, shareid, where):",
       "ANALYSIS-ERROR"),
 ]
+
+
+# ---- C06-I shape (faithful version, texts imported from the C01 self-test): the per-shareholder sends go through
+# _call_shareholder / _call_all_shareholders, the bucket-writer method is chosen by name (getattr), the stages return
+# the helper's gathered Deferred.  Silent when faithful; the same obligations are still enforced inside the helpers.
+try:
+    from .C01 import C06I_FAITHFUL as _C06I, _multi as _c06i_multi, SEND_BLOCK_VIA_HELPER as _C06I_SB, \
+        HELPER_GETATTR as _C06I_GA
+except Exception:       # pragma: no cover - the C01 self-test is not importable: skip these variants
+    _C06I = None
+
+if _C06I:
+    _EB = "        d.addErrback(self._remove_shareholder, shareid, where)\n        return d\n"
+    _GATHER = ("              for shareid in list(self.landlords)]\n        return self._gather_responses(dl)\n")
+    _CLOSE = '        return self._call_all_shareholders("close", "close")\n'
+    MUTANTS += [
+        _c06i_multi("benign-c06i-faithful-refactor-shareholder-call-helpers", EN, _C06I, None),
+        _c06i_multi("benign-c06i-shape-method-name-concatenated", EN, _C06I, None,
+                    extra=[(EN, _C06I_SB, '                                      "put_" + "block", segment_num, block,\n')]),
+        _c06i_multi("benign-c06i-shape-bound-method-handed-to-helper", EN, _C06I, None,
+                    extra=[(EN, _C06I_GA, "        d = (methname if callable(methname) else "
+                            "getattr(self.landlords[shareid], methname))(*args)\n")]),
+        _c06i_multi("c06i-shape-helper-errback-dropped", EN, _C06I, "C06.4",
+                    extra=[(EN, _EB, "        return d\n")]),
+        _c06i_multi("c06i-shape-helper-errback-told-share-zero", EN, _C06I, "C06.4",
+                    extra=[(EN, _EB, "        d.addErrback(self._remove_shareholder, 0, where)\n        return d\n")]),
+        _c06i_multi("c06i-shape-helper-returns-plain-deferredlist", EN, _C06I, "C06.6",
+                    extra=[(EN, _GATHER, "              for shareid in list(self.landlords)]\n"
+                            "        return defer.DeferredList(dl)\n")]),
+        _c06i_multi("c06i-shape-stage-drops-the-gathered-deferred", EN, _C06I, "C06.6",
+                    extra=[(EN, _CLOSE, '        self._call_all_shareholders("close", "close")\n'
+                            "        return defer.succeed(None)\n")]),
+        _c06i_multi("c06i-shape-helper-list-emptied-before-gather", EN, _C06I, "C06.10",
+                    extra=[(EN, _GATHER, "              for shareid in list(self.landlords)]\n        dl = []\n"
+                            "        return self._gather_responses(dl)\n")]),
+        _c06i_multi("c06i-shape-close-never-sent", EN, _C06I, "ANALYSIS-ERROR",
+                    extra=[(EN, _CLOSE, '        return self._call_all_shareholders("close", "put_header")\n')]),
+        _c06i_multi("c06i-shape-method-name-from-an-attribute", EN, _C06I, "ANALYSIS-ERROR",
+                    extra=[(EN, _C06I_SB, "                                      self._put_method, segment_num, block,\n")]),
+        _c06i_multi("c06i-shape-send-block-drops-the-helper-result", EN, _C06I, "ANALYSIS-ERROR",
+                    extra=[(EN, '        return self._call_shareholder(shareid, "segnum=%d" % segment_num,\n',
+                            '        self._call_shareholder(shareid, "segnum=%d" % segment_num,\n'),
+                           (EN, "                                      on_success=_done)\n",
+                            "                                      on_success=_done)\n        return defer.succeed(None)\n")]),
+    ]
